@@ -4,6 +4,7 @@ ResetAct == DReset(Ev.nr, Ev.nm, Ev.rel)
 StepAct ==
   \/ Is("wbeg")    /\ WBeg(Ev.k, Ev.id)
   \/ Is("wend")    /\ WEnd(Ev.k, Ev.id)
+  \/ Is("wrefused") /\ WRefused(Ev.k, Ev.id)
   \/ Is("dlv")     /\ Dlv(Ev.r, Ev.k, Ev.id, Ev.same)
   \/ Is("play")    /\ PlayRet(Ev.r)
   \/ Is("stop")    /\ StopCall(Ev.r)
